@@ -21,11 +21,12 @@ type state struct {
 	held  map[lockItem]bool
 	acq   map[lockItem]token.Pos // where each held lock was acquired in this function (absent: by a caller / unknown)
 	fresh map[types.Object]bool // locals holding a freshly allocated, not yet published tracked object
+	shared map[types.Object]string // MAY information: locals that may alias a value other goroutines reach through a container
 	dead  bool                  // unreachable
 }
 
 func newState() *state {
-	return &state{held: map[lockItem]bool{}, fresh: map[types.Object]bool{}, acq: map[lockItem]token.Pos{}}
+	return &state{held: map[lockItem]bool{}, fresh: map[types.Object]bool{}, acq: map[lockItem]token.Pos{}, shared: map[types.Object]string{}}
 }
 
 func (s *state) clone() *state {
@@ -39,6 +40,9 @@ func (s *state) clone() *state {
 	}
 	for k := range s.fresh {
 		n.fresh[k] = true
+	}
+	for k, v := range s.shared {
+		n.shared[k] = v
 	}
 	return n
 }
@@ -70,12 +74,23 @@ func meet(a, b *state) *state {
 			n.fresh[k] = true
 		}
 	}
+	for k, v := range a.shared { // may-information: union
+		n.shared[k] = v
+	}
+	for k, v := range b.shared {
+		n.shared[k] = v
+	}
 	return n
 }
 
 func sameState(a, b *state) bool {
-	if a.dead != b.dead || len(a.held) != len(b.held) || len(a.fresh) != len(b.fresh) {
+	if a.dead != b.dead || len(a.held) != len(b.held) || len(a.fresh) != len(b.fresh) || len(a.shared) != len(b.shared) {
 		return false
+	}
+	for k := range a.shared {
+		if _, ok := b.shared[k]; !ok {
+			return false
+		}
 	}
 	for k := range a.held {
 		if !b.held[k] || a.acq[k] != b.acq[k] {
@@ -130,6 +145,7 @@ type unit struct {
 	accesses []access
 	calls    []callsite
 	hasCtx   bool
+	returnsShared string // non-empty: a result may alias a value kept in a shared container (source description)
 }
 
 type frame struct {
@@ -162,6 +178,8 @@ type analysis struct {
 	foreignClose map[string]string     // channel field closed at a point where the closer is not known to be the only one
 	closed    map[string]int           // channel field -> number of close sites
 	sentTo    map[string]bool          // channel fields that are sent to (a receive does not imply "closed")
+	aliasWrites map[string]aliasWrite  // position -> write through an alias of a value kept in a shared container
+	sharedChanged bool                 // some function's returnsShared changed in this pass
 }
 
 func keyOfObj(o types.Object) string {
@@ -386,4 +404,93 @@ func acqOf(st *state, locks []lockItem) map[string]string {
 		}
 	}
 	return m
+}
+
+// ---- values handed out by shared containers (sync.Map, package-level maps): a slice or map obtained from one is the SAME
+// backing store for every goroutine that obtains it; appending to it or assigning its elements is a write to shared memory
+// that no lock of the container covers.
+
+type aliasWrite struct {
+	Fn     string `json:"fn"`
+	Pos    string `json:"pos"`
+	Op     string `json:"op"`
+	Source string `json:"source"`
+}
+
+func isSliceOrMap(t types.Type) bool {
+	if t == nil {
+		return false
+	}
+	switch t.Underlying().(type) {
+	case *types.Slice, *types.Map:
+		return true
+	}
+	return false
+}
+
+func isSyncMapMethod(c *ast.CallExpr, names ...string) (recv ast.Expr, ok bool) {
+	se, isSel := c.Fun.(*ast.SelectorExpr)
+	if !isSel {
+		return nil, false
+	}
+	sel := info.Selections[se]
+	if sel == nil || sel.Kind() != types.MethodVal || !isPkgType(sel.Recv(), "sync", "Map") {
+		return nil, false
+	}
+	for _, n := range names {
+		if se.Sel.Name == n {
+			return se.X, true
+		}
+	}
+	return nil, false
+}
+
+// sharedSource: does e denote (an alias of) a value that lives in a shared container? -> description or ""
+func (w *walker) sharedSource(st *state, e ast.Expr) string {
+	switch x := e.(type) {
+	case *ast.Ident:
+		if o := info.ObjectOf(x); o != nil {
+			return st.shared[o]
+		}
+	case *ast.ParenExpr:
+		return w.sharedSource(st, x.X)
+	case *ast.TypeAssertExpr:
+		return w.sharedSource(st, x.X)
+	case *ast.SliceExpr:
+		return w.sharedSource(st, x.X)
+	case *ast.IndexExpr:
+		if id, ok := unparen(x.X).(*ast.Ident); ok {
+			if v, ok := info.ObjectOf(id).(*types.Var); ok && v.Parent() == pkg.Scope() && isMap(v.Type()) && isSliceOrMap(info.TypeOf(x)) {
+				return "package-level map " + v.Name()
+			}
+		}
+	case *ast.CallExpr:
+		if recv, ok := isSyncMapMethod(x, "Load", "LoadOrStore", "Swap"); ok {
+			k, _ := exprKey(recv)
+			return "sync.Map " + rootOfKey(strings.SplitN(k, "@", 2)[0])
+		}
+		if id, ok := x.Fun.(*ast.Ident); ok && id.Name == "append" && len(x.Args) > 0 {
+			if _, isB := info.ObjectOf(id).(*types.Builtin); isB {
+				return w.sharedSource(st, x.Args[0]) // append may return the very same backing array
+			}
+		}
+		if fn := calleeFunc(x); fn != nil && fn.Pkg() == pkg {
+			if u := w.an.units[fn]; u != nil {
+				return u.returnsShared
+			}
+		}
+	}
+	return ""
+}
+
+func (w *walker) aliasWrite(st *state, target ast.Expr, op string, pos token.Pos) {
+	if !w.record || st.dead {
+		return
+	}
+	src := w.sharedSource(st, target)
+	if src == "" || !isSliceOrMap(info.TypeOf(target)) {
+		return
+	}
+	p := posStr(pos)
+	w.an.aliasWrites[p] = aliasWrite{Fn: w.u.name, Pos: p, Op: op, Source: src}
 }
